@@ -935,7 +935,7 @@ func searchC08() {
 	var samples []string
 	stride, deepEvery, nRandom, rowYears := 5, 8, 10, 60
 	if tier == "thorough" {
-		stride, deepEvery, rowYears = 6, 24, 420
+		stride, deepEvery, rowYears = 8, 24, 420
 	}
 	turn := 0
 	for _, y := range sweepYears(nRandom) {
@@ -955,7 +955,9 @@ func searchC08() {
 			if !(i%stride == phase || hasTerm || edge) {
 				continue
 			}
-			if hasTerm {
+			if hasTerm && tier == "thorough" {
+				ts = []hms{ts[2], ts[3+rng.Intn(len(ts)-3)]} // the term instant and one of its neighbouring seconds
+			} else if hasTerm {
 				ts = ts[1:]
 			} else {
 				k := rng.Intn(2)
@@ -974,7 +976,7 @@ func searchC08() {
 				}
 				moments++
 				w.shallow(s, l)
-				if moments%deepEvery == 0 || (edge && j == 0) || (hasTerm && j == 1 && rng.Intn(6) == 0) {
+				if moments%deepEvery == 0 || (edge && j == 0) || (hasTerm && j == 1 && tier != "thorough" && rng.Intn(6) == 0) {
 					deepMoments++
 					turn++
 					w.deep(s, l, turn)
